@@ -679,6 +679,9 @@ def create_dma_op(cmd: DMA, arch: ArchitectureFeatures) -> NpuDmaOperation:
     else:
         src_addr = cmd.in_tensor.address_for_coordinate(cmd.box.start_coord)
         dest_addr = cmd.out_tensor.address_for_coordinate(cmd.box.start_coord)
+        if cmd.out_tensor.purpose == TensorPurpose.LUT and cmd.lut_address is not None:
+            # the slot given to this transfer (the tensor's address is that of the last transfer of the table)
+            dest_addr = cmd.lut_address
         # DMA must use 16 bytes alignment (tensors are always aligned but the sz calculation uses actual size)
         sz = round_up(cmd.in_tensor.address_for_coordinate(cmd.box.end_coord, is_top_box=True) - src_addr, 16)
     src = NpuAddressRange(src_region, int(src_addr), int(sz))
